@@ -238,3 +238,14 @@ func vh_C12_escapes() {
 	vAssert(vSexpEq(v, back), "escapes-read-back")
 	vReach("escapes")
 }
+
+// vh_C12_offsets: printed data reads back the same wherever it stands in a
+// text (see vOffsets in the C13 harness): numeric literals, signs and
+// exponents are classified with a bounded look-back memory whose wrap-around
+// must not show.
+var vC12Printed = []string{
+	"-7 ", "[1 -7]", "(1 -2 3)", "2.5e-07 ", "1e+06 ", "-1.5 ", "[2.5e-07 -3e+20]", "-9223372036854775808 ", "+5 ", "-Inf ", "NaN ",
+	`"-a"`, `'-'`, "(a - 7)", "(- 7 -7)", "a-7 ", "[0x1F -0x1F]", "18446744073709551615ULL ", "(quote -x)", "1e-3 ", "-.5 ",
+}
+
+func vh_C12_offsets() { vOffsets("offsets", vC12Printed, false) }
